@@ -518,6 +518,15 @@ impl JpegBitstreamReconstructor<'_, '_, '_> {
                     tracing::error!("No component in SOS marker");
                     return Err(Error::InvalidData);
                 }
+                let num_frame_comps = self.header.components.len().min(3);
+                if si
+                    .component_info
+                    .iter()
+                    .any(|c| c.comp_idx as usize >= num_frame_comps)
+                {
+                    tracing::error!("Invalid component index in SOS marker");
+                    return Err(Error::InvalidData);
+                }
 
                 let num_comps = si.num_comps();
                 let header_len_bytes = (6 + 2 * num_comps as u16).to_be_bytes();
@@ -562,7 +571,6 @@ impl JpegBitstreamReconstructor<'_, '_, '_> {
 
                 // MCU size is determined by the sampling factors of all components of the frame, not
                 // only the ones in the scan.
-                let num_frame_comps = self.header.components.len().min(3);
                 let mut max_hsample = jpeg_upsampling_ycbcr[..num_frame_comps]
                     .iter()
                     .map(|&j| [1u32, 2, 2, 1][j as usize])
